@@ -15,14 +15,45 @@ def families(tier, seed):
         for vec in (False, True):
             out.append(dict(tag=tag, features=feats, kind="overrides", model=model, ops=ops, vec=vec, seed=seed,
                             share=feats.get("share", True)))
+    for how in ("update_var", "node_values"):
+        for vec in (False, True):
+            out.append(dict(tag=f"U26-integer-declared-parameter/{how}", features=dict(int_declared=True, how=how), kind="int_param", how=how, vec=vec))
     return out
+
+
+def int_param_case(c):
+    """A parameter DECLARED with an integer literal (`k: 2`, as in many YAML templates) and overridden with a non-integer value:
+    the compiled argument must carry the override."""
+    import numpy as np
+    from pyrates import OperatorTemplate, NodeTemplate, CircuitTemplate
+    op = OperatorTemplate(name="o", equations=["d/dt * x = -x*k + b"], variables={"x": "output(0.5)", "k": 2, "b": 1}, path=None)
+    tpl = CircuitTemplate(name="n", nodes={"p": NodeTemplate(name="nt", operators=[op], path=None)})
+    kw = dict(step_size=1e-3, vectorize=c["vec"], verbose=False, float_precision="float64", file_name="intp_mod")
+    if c["how"] == "update_var":
+        tpl.update_var(node_vars={"p/o/k": 2.5, "p/o/b": 0.25})
+    else:
+        kw["node_values"] = {"p/o/k": 2.5, "p/o/b": 0.25}
+    f, a, names, m = tpl.get_run_func("vf", **kw)
+    got = {n.split("/")[-1]: float(np.asarray(v).reshape(-1)[0]) for n, v in zip(names[3:], a[3:])}
+    dx = float(np.asarray(f(*a)).reshape(-1)[0])
+    fails = []
+    if abs(got.get("k", 0) - 2.5) > 1e-12 or abs(got.get("b", 0) - 0.25) > 1e-12 or abs(dx - (-0.5 * 2.5 + 0.25)) > 1e-9:
+        fails.append(dict(clause="an override of a parameter declared with an integer literal reaches the compiled function unchanged",
+                          observed=dict(args=got, dx=dx), expected=dict(args={"k": 2.5, "b": 0.25}, dx=-1.0)))
+    return dict(status="violated" if fails else "ok", fails=fails)
+
+
+def case_fn(c):
+    if c["kind"] == "int_param":
+        return int_param_case(c)
+    return cases.case_fn(c)
 
 
 def main():
     chk = Check("C07", "exploration")
     _cases = families(chk.tier, chk.seed)
     _results = driver.run_family(
-        chk, "overrides-vs-spec-args", _cases, cases.case_fn, site="C07/overrides",
+        chk, "overrides-vs-spec-args", _cases, case_fn, site="C07/overrides",
         rule="three nodes built from ONE NodeTemplate object, two templates interleaved T1,T2,T1,T2, a hierarchy whose "
              "sub-circuits reuse templates; operations: update_var on one node (first / middle / last), on initial values, with "
              "per-node arrays over `all` (constants and initial values), repeated and mixed sequences of up to 4 calls, an edge "
@@ -32,7 +63,7 @@ def main():
              "initial state and vector field must equal those of the model with exactly the addressed nodes overridden; "
              "vectorize off and on; distinct = (scenario, vectorize)",
         sample_of=cases.sample_of)
-    driver.run_sequences(chk, "overrides-vs-spec-args-in-sequence", _cases, _results, cases.case_fn, site="C07/overrides",
+    driver.run_sequences(chk, "overrides-vs-spec-args-in-sequence", _cases, _results, case_fn, site="C07/overrides",
                          limit=20 if chk.tier == "quick" else 120, seed=chk.seed)
     rc = chk.finish(
         explanation="Bounded: each scenario applies the operations through the real API and to the MDL (harness) and checks the "
